@@ -20,3 +20,85 @@ def replay_build_header(w, rec):
 REPLAYS = {
   'KafkaTransportSink._BuildHeader': replay_build_header,
 }
+
+
+# --------------------------------------------------------------------------------------------------------------
+import struct
+from io import BytesIO
+
+
+def _i(x, lo, hi, default):
+  return x if isinstance(x, int) and not isinstance(x, bool) and lo <= x <= hi else default
+
+
+def replay_produce_response(w, rec):
+  """Encode a produce response independently (big-endian, signed fields), decode it with the real code."""
+  from scales.kafka.protocol import KafkaProtocol
+  caps = (w.get('captures') or w.get('params') or {}) if isinstance(w, dict) else {}
+  cases = [(b'topic', 0, 0, 0), (b't', 3, -1, -1), (b'', 2 ** 31 - 1, 7, 2 ** 63 - 1), (b'xy', 1, -32768, -2 ** 63)]
+  cases.append((b'w', _i(caps.get('g_part'), -2 ** 31, 2 ** 31 - 1, 1), _i(caps.get('g_err'), -2 ** 15, 2 ** 15 - 1, 0), _i(caps.get('g_off'), -2 ** 63, 2 ** 63 - 1, 5)))
+  bad = []
+  for topic, part, err, off in cases:
+    for nparts in (1, 2):
+      body = struct.pack('!i', 1) + struct.pack('!h', len(topic)) + topic + struct.pack('!i', nparts)
+      for k in range(nparts):
+        body += struct.pack('!ihq', part, err, off - k if off - k >= -2 ** 63 else off)
+      try:
+        msg = KafkaProtocol()._DeserializeProduceResponse(BytesIO(body))
+        got = [(bytes(r.topic) if not isinstance(r.topic, str) else r.topic.encode(), r.partition, r.error, r.offset) for r in msg.return_value]
+      except Exception as e:
+        bad.append('response %r: decoder raised %s: %s' % ((topic, part, err, off), type(e).__name__, e))
+        continue
+      want = [(topic, part, err, off - k if off - k >= -2 ** 63 else off) for k in range(nparts)]
+      if got != want:
+        bad.append('broker encoded %r, client decoded %r' % (want, got))
+  return bool(bad), '\n'.join(bad[:4]) or 'produce responses decode to what was encoded'
+
+
+def replay_serializer_sink(w, rec):
+  """Two requests through one KafkaSerializerSink: each hands the transport a stream holding exactly its own bytes."""
+  from scales.kafka.sink import KafkaSerializerSink
+  from scales.kafka.protocol import KafkaProtocol
+  from scales.message import MethodCallMessage
+  from scales.sink import ClientMessageSinkStack
+  seen = []
+  class Next(object):
+    def AsyncProcessRequest(self, sink_stack, msg, stream, headers):
+      seen.append((stream, stream.getvalue(), stream.tell()))
+  class Prov(object):
+    def CreateSink(self, props):
+      return Next()
+  sink = KafkaSerializerSink(Prov(), None, {})
+  from scales.constants import MessageProperties
+  class Ep(object):
+    partition_id = 3
+  def mk(method, args, kwargs):
+    m = MethodCallMessage(None, method, args, kwargs)
+    m.properties[MessageProperties.Endpoint] = Ep()
+    return m
+  reqs = [('Put', (b'topic-one', [b'a-rather-long-payload-for-the-first-request'] * 3), {}), ('Put', (b't', [b'x']), {})]
+  bad = []
+  for method, args, kwargs in reqs:
+    msg = mk(method, args, kwargs)
+    st = ClientMessageSinkStack()
+    try:
+      sink.AsyncProcessRequest(st, msg, None, {})
+    except Exception as e:
+      return False, 'request could not be serialized in this harness: %s: %s' % (type(e).__name__, e)
+  if len(seen) != 2:
+    return False, 'serializer did not forward both requests (%d forwarded)' % len(seen)
+  (s1, v1, t1), (s2, v2, t2) = seen
+  ref = BytesIO()
+  KafkaProtocol().SerializeMessage(mk(*reqs[1]), ref, {})
+  if v2 != ref.getvalue():
+    bad.append('second (shorter) request: the stream handed to the transport holds %d bytes, its own serialization is %d bytes -- %d stale bytes of the previous request follow the frame' % (
+      len(v2), len(ref.getvalue()), len(v2) - len(ref.getvalue())))
+  if s1 is s2:
+    bad.append('both requests were handed the same buffer object')
+  return bool(bad), '\n'.join(bad) or 'each request is forwarded in a buffer of its own holding exactly its bytes'
+
+
+REPLAYS.update({
+  'KafkaProtocol._DeserializeProduceResponse': replay_produce_response,
+  'KafkaSerializerSink.AsyncProcessRequest': replay_serializer_sink,
+})
